@@ -101,6 +101,7 @@ func (p *Parser) Parse(namespace string, operationBuffer []byte) (*operation.Ope
 		UniqueSuffix:     internal.UniqueSuffix,
 		ID:               internal.ID,
 		OperationRequest: operationBuffer,
+		AnchorOrigin:     internal.AnchorOrigin,
 	}, nil
 }
 
